@@ -4,6 +4,8 @@ Request: {"m": "<model>", …model-specific fields…}.  Reply: {"ok": <value>} 
 The handlers call the same definitions the theorems in LianVerif/Properties are about.
 -/
 import LianVerif.Drv.PathStore
+import LianVerif.Drv.GirExec
+import LianVerif.Drv.LowerPy
 
 open Lean LianVerif.Drv
 
@@ -11,6 +13,10 @@ def dispatch (j : Json) : Except String Json := do
   let m ← getStr (← field j "m")
   match m with
   | "pathstore" => LianVerif.Drv.PathStore.handle j
+  | "girexec" => LianVerif.Drv.GirExec.handle j
+  | "lowerpy" => LianVerif.Drv.LowerPy.handleLower j
+  | "evalpy" => LianVerif.Drv.LowerPy.handleEval j
+  | "modelexec" => LianVerif.Drv.LowerPy.handleModelExec j
   | _ => throw s!"unknown model {m}"
 
 partial def loop (hin hout : IO.FS.Stream) : IO Unit := do
